@@ -9,7 +9,7 @@ from vlib.harness import ok, skip, viol
 PID = "C19"
 RULE = ("A generated program (C02 generator: forward / backward label references, branches, label,PCR, EQU before and "
         "after use, data directives) is rendered to lines and cut at drawn statement boundaries into an including file "
-        "and 1-3 included files, either side by side or nested to depth 3, with file names [a-z]{1,8}.asm (some in a "
+        "and 1-3 included files, either side by side (up to three INCLUDE lines in one file) or nested to depth 3, with file names [a-z]{1,8}.asm (some in a "
         "sub-directory), written into a temp working directory. Oracle: assembling the including file gives exactly "
         "the canonical result (outcome, image, every listing line, symbol table in order, origin, name, diagnostic) of "
         "assembling the spliced text; 1 case in 8 repeats the comparison through real assembler.py processes (--to_bin "
@@ -24,7 +24,7 @@ EXHAUSTIVE = {}
 
 _FN = ["a", "b", "cc", "defs", "zzzzzzzz", "m", "inc/sub", "inc/deep"]
 _case = st.fixed_dictionaries(dict(
-    prog=proggen.program, cuts=st.lists(st.integers(0, 60), min_size=4, max_size=6), nested=st.booleans(),
+    prog=proggen.program, cuts=st.lists(st.integers(0, 60), min_size=4, max_size=7), nested=st.booleans(),
     names=st.permutations(_FN), cli=st.integers(0, 7)))
 
 
@@ -64,7 +64,7 @@ def split(lines, cuts, nested, names):
         main = []
         prev = 0
         k = 0
-        segs = list(zip(pts, pts[1:]))[:3]
+        segs = list(zip(pts, pts[1:]))[:5]        # up to three sibling INCLUDE lines in the main file
         for i, (a, b) in enumerate(segs):
             main += lines[prev:a]
             if i % 2 == 0 and a < b and k < 3:
